@@ -71,7 +71,7 @@ def gen(args):
                 out.append(c2)
         elif which == 2:
             N = N_s
-            a = int(rng.integers(0, 8))
+            a = int(rng.integers(0, 8))          # mixing = 1 is rejected by design ("use the FPS class")
             if rng.random() < 0.3:
                 rs = int(rng.integers(0, 1000)) if rng.random() < 0.7 else 0      # 0 is the documented default (then omitted half of the time)
                 kw = {"initialize": "random", "random_state": rs, "mixing": a / 8}
